@@ -14,7 +14,7 @@ INFO_RE = re.compile(r"^info depth (\d+)(?: seldepth (\d+))? nodes (\d+) (?:time
 
 def run(ctx):
     prop = "C14"
-    gate, err = SP.prepare(prop, extra_targets=B.MODEL_TARGETS + ["props/ChessInstances.vo"])
+    gate, err = SP.prepare(prop, extra_targets=B.MODEL_TARGETS + ["props/ChessInstances.vo", "model/InfoLine.vo"])
     if err:
         return err
     violations, cov = [], {"samples": []}
@@ -159,6 +159,34 @@ def run(ctx):
                                            "N": meta[1], "line": meta[2]})
                 violations.append({"replay": rp})
                 break
+    # exact text: the model of log_uci_info's formatting (model/InfoLine.v) must reproduce every real line character by character
+    raw = list(dict.fromkeys(meta[2] for meta in pv_meta))
+    fitems = []
+    for l in raw:
+        m = INFO_RE.match(l)
+        d, sd, n, t = int(m.group(1)), int(m.group(2) or 0), int(m.group(3)), m.group(4)
+        sc = m.group(6)
+        pv = m.group(7).split()
+        if sc.startswith("cp"):
+            scq = "(Some (%s)%%Z)" % sc.split()[1]
+        else:
+            scq = "(Some (%s)%%Z)" % ("-32767" if sc.split()[1].startswith("-") else "32767")
+        fitems.append("info_string %d %d %d%%N %s %s [%s]" % (d, sd, n, "(Some %s%%N)" % t if t else "None", scq,
+                                                            "; ".join(B.coq_str(x) for x in pv)))
+    fvals, flg = C.coq_eval_items("c14fmt", "From Coq Require Import NArith ZArith List String.\nImport ListNotations.\nFrom RCE Require Import model.InfoLine.\nOpen Scope string_scope.\n",
+                                  fitems, lambda l: l, nshards=C.NPROC, timeout=900)
+    if fvals is None:
+        rp = C.write_replay(prop, {"broken": "info line text evaluation", "log": flg[-1500:]})
+        violations.append({"replay": rp, "no_input": True})
+    else:
+        nbf = 0
+        for l, v in zip(raw, fvals):
+            if v != l:
+                nbf += 1
+                if nbf <= 3:
+                    rp = C.write_replay(prop, {"kind": "info line text differs from the model of log_uci_info", "engine": l, "model": v})
+                    violations.append({"replay": rp})
+        cov["info_lines_text_compared"] = len(raw)
     cov["pipe_info_lines_validated"] = lines_checked
     cov["pipe_pvs_replayed_on_model"] = len(pv_items)
     cov["evaluations"] = cov.get("evaluations", 0) + lines_checked
